@@ -543,6 +543,20 @@ def check_c17(tier, seed):
                 _apps.pop((id(calls), ci), None)
                 known.append(p)
                 resolve_call(calls, ci, p, ident)
+    # LONG identifiers (real-world LSIDs, DOIs, versioned accessions): dozens of characters, the delimiter far into the path,
+    # on a random stream of its own; asked of every converter built so far, the OLDEST first
+    lrng = random.Random(seed * 37 + 1717)
+    long_ids = ["urn:lsid:ipni.org:names:20012728-1:1.1", "10.1000/xyz123.456-789_abc~def.ghi/jkl.mno:pqr", "a" * 40 + ":b", "a" * 31 + ":b", "a" * 32 + ":b", "a" * 33 + ":b",
+                "x/" + "y" * 70, "v1:" + "0123456789" * 7, "-".join(["seg"] * 20) + ":end:1.0"]
+    latest = {}
+    for ci_ in range(1, len(calls.conv_objs) + 1):
+        latest[id(calls.conv_objs[ci_ - 1])] = ci_          # a mutated converter is logged again under a new index: use the last one
+    lconvs = sorted(latest.values())
+    for ci_ in (lconvs[:3] + lconvs[-3:]):
+        c = calls.conv_objs[ci_ - 1]
+        names = [x for r in c.records for x in (r.prefix, *r.prefix_synonyms)][:3] + ["nope"]
+        for ident in lrng.sample(long_ids, 5):
+            resolve_call(calls, ci_, lrng.choice(names), ident if c.delimiter == ":" else ident.replace(":", "."))
     batch, group = calls.batch(100)
     fails, stv = tlc.validate_calls(batch, spec="TraceWeb.tla", cfg="TraceWeb.cfg", timeout=1200 if quick else 3000)
     lines, violations, known_f, other = verdict("C17", "web", fails, calls, group, lambda c: {"C17"})
